@@ -24,6 +24,14 @@ RULE = ('cases: as C01 plus more failing/cancelled invocations, caller cancels/t
 ESSENTIAL = ['cross-loop-wait', 'left-pending', 'inv-failed']
 
 
+ENUM_EXHAUSTIVE = {'quick': 'every single-preemption schedule (decision index x target thread) of the canonical small programs in cache_common.canonical_programs',
+                   'thorough': 'every single-preemption schedule of the canonical small programs'}
+
+
+def enumerate_cases(tier, shard=0, nshards=1):
+    return G.single_preemption_cases('c05', shard, nshards)
+
+
 def strategy(tier):
     return G.case_strategy('c05')
 
